@@ -1,6 +1,6 @@
 use crate::internal::expr::Expr;
 use crate::internal::stringpool::StringPool;
-use crate::internal::table::{Row, Rows, Table};
+use crate::internal::table::{Row, Rows, Table, MAX_NUM_TABLE_ROWS};
 use crate::internal::value::{Value, ValueRef};
 use cfb;
 use std::collections::{BTreeMap, HashSet};
@@ -215,6 +215,14 @@ impl Insert {
                 );
             }
             new_keys_set.insert(keys);
+        }
+        // Don't let the table grow beyond what can be read back.
+        if rows_map.len() + self.new_rows.len() > MAX_NUM_TABLE_ROWS {
+            invalid_input!(
+                "Table {:?} cannot hold more than {} rows",
+                self.table_name,
+                MAX_NUM_TABLE_ROWS
+            );
         }
         // Insert the new rows into the table.
         for values in self.new_rows.into_iter() {
